@@ -311,10 +311,13 @@ OnStmt(e) ==
       v6 == IF e.outcome = "error" /\ ~ro /\ ~(Has(e, "unstorable") /\ e.unstorable) THEN Unexpected(e, "statement") ELSE {}
       v7 == IF PastDeadline(c) /\ e.outcome = "ok" /\ e.dm > 0
             THEN V("C15", "C15_DeadlineApplies", e, [mutations |-> e.dm]) ELSE {}
+      \* a statement in autocommit mode that reports success and changes the table has published a version
+      v9 == IF acc /\ e.intx = 0 /\ ~ro /\ Ideal(before) # Ideal(after) /\ Len(Get(g.fresh, c, <<>>)) = 0
+            THEN VAll({"C04", "C05", "C14"}, "_AcknowledgedIsPublished", e, [stmt |-> f, versions_put |-> 0]) ELSE {}
       \* a statement in autocommit mode that reports failure has published no version
       v8 == IF e.outcome # "ok" /\ e.intx = 0 /\ Len(Get(g.fresh, c, <<>>)) > 0
             THEN V("C05", "C05_FailedCommitLeavesBucket", e, [versions |-> Get(g.fresh, c, <<>>), err |-> e.err]) ELSE {}
-  IN [g2 |-> g2, v |-> v1 \cup v2 \cup v3 \cup v4 \cup v5 \cup v6 \cup v7 \cup v8]
+  IN [g2 |-> g2, v |-> v1 \cup v2 \cup v3 \cup v4 \cup v5 \cup v6 \cup v7 \cup v8 \cup v9]
 
 OnRows(e) ==
   LET c == e.c
@@ -352,10 +355,14 @@ OnCommit(e) ==
       v2 == IF e.outcome = "ok" /\ Get(g.cpend, c, {}) = {} /\ e.dm > 0
             THEN V("C16", "C16_NoopCommitNoPut", e, [mutations |-> e.dm]) ELSE {}
       v3 == IF e.outcome # "ok" THEN Unexpected(e, "commit") ELSE {}
+      \* a COMMIT that reports success and changes the table has published a version
+      v5 == IF e.outcome = "ok" /\ Get(g.txputs, c, 0) = 0 /\ Get(g.cmode, c, "rw") = "rw"
+               /\ Ideal(Get(g.csnap, c, {})) # Ideal(Get(g.cfacts, c, {})) /\ Get(g.ctx, c, FALSE)
+            THEN VAll({"C04", "C05", "C14"}, "_AcknowledgedIsPublished", e, [pending |-> Get(g.cpend, c, {}), versions_put |-> 0]) ELSE {}
       \* a COMMIT that reports failure is a forced ROLLBACK: it has published no version
       v4 == IF e.outcome # "ok" /\ Get(g.txputs, c, 0) > 0
             THEN V("C05", "C05_FailedCommitLeavesBucket", e, [versions |-> Get(g.txputs, c, 0), err |-> e.err]) ELSE {}
-  IN [g2 |-> g2, v |-> v1 \cup v2 \cup v3 \cup v4]
+  IN [g2 |-> g2, v |-> v1 \cup v2 \cup v3 \cup v4 \cup v5]
 
 OnRollback(e) ==
   LET c == e.c
@@ -530,9 +537,9 @@ OnVacuum(e) ==
          v3 == IF cand \cap g.mrg # {}
                THEN V("C10", "C10_OldVersionsGone", e, [cutoff |-> cutoff, still_there |-> cand \cap g.mrg]) ELSE {}
          v4 == IF \E x \in delm : Get(g.vcre, x, 0) > cutoff
-               THEN V("C09", "C09_KeepsNewerVersions", e, [cutoff |-> cutoff, deleted |-> {x \in delm : Get(g.vcre, x, 0) > cutoff}]) ELSE {}
+               THEN VAll({"C09", "C10"}, "_KeepsNewerVersions", e, [cutoff |-> cutoff, deleted |-> {x \in delm : Get(g.vcre, x, 0) > cutoff}]) ELSE {}
          v5 == IF ~(delm \subseteq cand)
-               THEN V("C09", "C09_OnlySupersededDeleted", e, [cutoff |-> cutoff, deleted |-> delm \ cand]) ELSE {}
+               THEN VAll({"C09", "C10"}, "_OnlySupersededDeleted", e, [cutoff |-> cutoff, deleted |-> delm \ cand]) ELSE {}
      IN [g2 |-> g1, v |-> v1 \cup v2 \cup v3 \cup v4 \cup v5]
 
 (* a default-time transaction over two tables of one connection: one write time *)
